@@ -74,10 +74,10 @@ func genTxnCalls(t *T, n int, tagBase int64, endings bool) []txnCall {
 			call.kind = "Get"
 		case 2:
 			call.kind = "GetHandler"
-			call.handler = []string{"ok", "fail", "abort"}[c.Weighted(3, 2, 1)]
+			call.handler = drawHandler(c, endings)
 		case 3:
 			call.kind = "SetHandler"
-			call.handler = []string{"ok", "fail", "abort"}[c.Weighted(3, 2, 1)]
+			call.handler = drawHandler(c, endings)
 		default:
 			if !endings {
 				call.kind = "Get"
@@ -88,6 +88,15 @@ func genTxnCalls(t *T, n int, tagBase int64, endings bool) []txnCall {
 		calls = append(calls, call)
 	}
 	return calls
+}
+
+// drawHandler: what a handler does: succeed, fail, abort, or (sequential mode) "perform more operations" -- one
+// further Get of the same key on the transaction it is handed -- and then succeed (nest) or fail (nestfail).
+func drawHandler(c *Stream, nested bool) string {
+	if nested {
+		return []string{"ok", "fail", "abort", "nest", "nestfail"}[c.Weighted(6, 4, 2, 1, 1)]
+	}
+	return []string{"ok", "fail", "abort"}[c.Weighted(3, 2, 1)]
 }
 
 // txnModel is the ~20 line map model of one transaction over a store.
@@ -135,7 +144,7 @@ func (m *txnModel) apply(c txnCall, injected bool) {
 			delete(m.store, c.key)
 		}
 	}
-	if c.handler == "fail" && w.err == "" {
+	if (c.handler == "fail" || c.handler == "nestfail") && w.err == "" {
 		w.err = "handler"
 	}
 	if c.handler == "abort" {
@@ -163,9 +172,25 @@ func errKind(err error) string {
 	return "other:" + err.Error()
 }
 
+// nestHook, when set, is called by "nest"/"nestfail" handlers around their further Get (sequential mode only:
+// the one client task sets it before the call and reads what it recorded afterwards).
+var nestHook func(txn keyvalue.Transaction, key string)
+
 func handlerFor(kind string) keyvalue.OpHandler {
+	return handlerForKey(kind, "")
+}
+
+func handlerForKey(kind, key string) keyvalue.OpHandler {
 	return keyvalue.OpHandlerFunc(func(txn keyvalue.Transaction, res keyvalue.OpResult) error {
 		switch kind {
+		case "nest", "nestfail":
+			if nestHook != nil {
+				nestHook(txn, key)
+			}
+			if kind == "nestfail" {
+				return errHandler
+			}
+			return nil
 		case "fail":
 			return errHandler
 		case "abort":
@@ -187,7 +212,7 @@ func runTxnCalls(txn keyvalue.Transaction, calls []txnCall, between func()) []ke
 		case "Get":
 			ids = append(ids, txn.Get(c.key))
 		case "GetHandler":
-			ids = append(ids, txn.GetHandler(c.key, handlerFor(c.handler)))
+			ids = append(ids, txn.GetHandler(c.key, handlerForKey(c.handler, c.key)))
 		case "Set":
 			r := tagRecord(c.tag)
 			d, _ := r.Data()
@@ -195,7 +220,7 @@ func runTxnCalls(txn keyvalue.Transaction, calls []txnCall, between func()) []ke
 		case "SetHandler":
 			r := tagRecord(c.tag)
 			d, _ := r.Data()
-			ids = append(ids, txn.SetHandler(c.key, r, d, handlerFor(c.handler)))
+			ids = append(ids, txn.SetHandler(c.key, r, d, handlerForKey(c.handler, c.key)))
 		case "Del":
 			ids = append(ids, txn.Set(c.key, nil, nil))
 		case "Abort":
@@ -277,7 +302,11 @@ func c18Sequential(t *T) {
 			model := map[string]int64{}
 			var prev keyvalue.Transaction
 			for x := 0; x < ntx; x++ {
-				calls := genTxnCalls(t, c.Draw(8), int64(100*(x+1)), true)
+				ncalls := c.Draw(8)
+				if c.Chance(1, 10) {
+					ncalls = 12 + c.Draw(30) // a long transaction: whatever is sized for the usual handful has to grow
+				}
+				calls := genTxnCalls(t, ncalls, int64(100*(x+1)), true)
 				ending := []string{"Commit", "Abort", "Abort+Commit", "Commit+Abort", "Abort+Abort", "Commit(cancelled ctx)", "Commit(cancelled ctx)+Abort"}[c.Weighted(6, 2, 1, 1, 1, 1, 1)]
 				var plan *faultPlan
 				if sim != nil && c.Chance(1, 3) {
@@ -297,6 +326,8 @@ func c18Sequential(t *T) {
 				_ = base
 				// run the calls one by one so the model knows whether the injected fault fired in each
 				var ids []keyvalue.OpID
+				var flat []txnCall // the calls in the order they were made, those made inside handlers included
+				hasNested := false
 				for _, call := range calls {
 					if prev != nil && c.Chance(1, 5) {
 						// a straggling call on the transaction that ended before this one was opened: no effect on
@@ -314,8 +345,23 @@ func c18Sequential(t *T) {
 						t.Stat("c18:straggler-call")
 					}
 					firedBefore := plan != nil && plan.fired > 0
-					ids = append(ids, runTxnCalls(txn, []txnCall{call}, nil)...)
-					injected := plan != nil && plan.fired > 0 && !firedBefore
+					abortedBefore := m.aborted
+					// a handler that performs a further operation: the outer call's id comes first (it was made first)
+					nestedRan, firedAtHandler, nestedID := false, false, keyvalue.OpID(-1)
+					nestHook = func(htxn keyvalue.Transaction, key string) {
+						nestedRan = true
+						firedAtHandler = plan != nil && plan.fired > 0
+						nestedID = htxn.Get(key)
+					}
+					outerIDs := runTxnCalls(txn, []txnCall{call}, nil)
+					nestHook = nil
+					ids = append(ids, outerIDs...)
+					flat = append(flat, call)
+					firedNow := plan != nil && plan.fired > 0 && !firedBefore
+					injected := firedNow
+					if nestedRan {
+						injected = firedAtHandler && !firedBefore
+					}
 					if call.kind == "Abort" {
 						m.aborted = true
 						m.want = append(m.want, struct {
@@ -326,6 +372,25 @@ func c18Sequential(t *T) {
 						m.apply(call, injected)
 					}
 					names = append(names, call.String())
+					if call.handler == "nest" || call.handler == "nestfail" {
+						// the model: the handler runs unless the transaction was over already, and its Get is one more call
+						if nestedRan == abortedBefore {
+							t.Fail("results", "C18:"+implName+":handler-run", fmt.Sprintf("%s after %v: handler ran=%v, transaction aborted before=%v", call, names, nestedRan, abortedBefore))
+						}
+						if !abortedBefore {
+							hasNested = true
+							nc := txnCall{kind: "Get", key: call.key}
+							ids = append(ids, nestedID)
+							flat = append(flat, nc)
+							m.apply(nc, firedNow && !injected)
+							names = append(names, "[inside that handler: "+nc.String()+"]")
+							t.Stat("c18:nested-call-in-handler")
+						}
+					}
+				}
+				calls = flat
+				if len(calls) >= 16 {
+					t.Stat("c18:long-transaction")
 				}
 				t.Logf("txn %d: %v then %s", x, names, ending)
 				sig := "C18:" + implName
@@ -338,6 +403,20 @@ func c18Sequential(t *T) {
 						}
 						if len(res) != len(calls) {
 							t.Fail("results", sig+":result-count", fmt.Sprintf("Commit returned %d results for %d calls %v", len(res), len(calls), names))
+						}
+						if hasNested && len(res) == len(calls) {
+							// with calls made inside handlers the results are matched by operation id: which of the two
+							// comes first in the slice is not something the statement settles, one result per id is
+							byID := make([]keyvalue.OpResult, len(res))
+							seen := map[keyvalue.OpID]bool{}
+							for _, r := range res {
+								if r.Op < 0 || int(r.Op) >= len(res) || seen[r.Op] {
+									t.Fail("results", sig+":op-id-set", fmt.Sprintf("results of %v: operation id %d out of range or twice", names, r.Op))
+								}
+								seen[r.Op] = true
+								byID[r.Op] = r
+							}
+							res = byID
 						}
 						for i, r := range res {
 							w := m.want[i]
